@@ -129,11 +129,11 @@ func runCrashSim(run int, seed uint64) RunReport {
 		}
 		seen[k] = true
 		rf := ReplayFile{Property: v.Property, Driver: "crashsim", Seed: seed, Tier: flTier, Cfg: mustJSON(cr.Cfg), Ops: opsJSON, Faults: v.Faults, Violation: v, OpsCount: len(cr.Ops)}
-		if flMinimise && v.Property != "C08" && len(seen) <= 3 {
+		if v.Property != "C08" && len(seen) <= 3 && mayMinimise() {
 			if m := minimiseCrash(cr, v); m != nil {
 				rf = *m
 			}
-		} else if flMinimise && v.Property == "C08" && len(seen) <= 3 {
+		} else if v.Property == "C08" && len(seen) <= 3 && mayMinimise() {
 			if m := minimiseWal(cr, v); m != nil {
 				rf = *m
 			}
